@@ -898,6 +898,11 @@ pub mod verif {
             self.actor.on_sync_via_accept_finished(res).await
         }
 
+        /// `on_sync_report` for a report with the given encoded heads
+        pub async fn on_sync_report(&mut self, from: PublicKey, namespace: NamespaceId, heads: Vec<u8>) {
+            self.actor.on_sync_report(from, SyncReport { namespace, heads }).await
+        }
+
         /// `(state, resync_requested)` of the slot for `peer`
         pub fn snapshot(&mut self, namespace: NamespaceId, peer: PublicKey) -> Option<(u8, bool)> {
             self.actor.state.verif_snapshot(&namespace, peer)
